@@ -74,9 +74,9 @@ func checkC09(c *km.Ctx) {
 	}
 	sort.Slice(writes, func(i, j int) bool { return posOf(c, writes[i].in) < posOf(c, writes[j].in) })
 	for _, w := range writes {
-		name := w.fn.Name()
+		name := km.NameOf(w.fn)
 		if w.fn.Parent() != nil {
-			name = w.fn.Parent().Name()
+			name = km.NameOf(w.fn.Parent())
 		}
 		reason, ok := signerWriters[name]
 		r.Add("R-C09-1", km.FuncName(w.fn), "write RuntimeState."+w.field, posOf(c, w.in), "signer family written only by reviewed writers", name+": "+reason, ok)
@@ -201,8 +201,8 @@ func checkC09(c *km.Ctx) {
 			km.Instrs(fn, func(in ssa.Instruction) {
 				if sd, ok := in.(*ssa.Send); ok && mentionsField(sd.Chan, "SignerIsReady") {
 					nSend++
-					okS := fn == unseal || fn.Name() == "tryLoadAndVerifySigners"
-					r.Add("R-C09-2", km.FuncName(fn), "who may send on SignerIsReady", posOf(c, in), "only unsealCA and the plaintext start-up path", fn.Name(), okS)
+					okS := fn == unseal || km.NameOf(fn) == "tryLoadAndVerifySigners"
+					r.Add("R-C09-2", km.FuncName(fn), "who may send on SignerIsReady", posOf(c, in), "only unsealCA and the plaintext start-up path", km.NameOf(fn), okS)
 				}
 				if st, ok := in.(*ssa.Store); ok {
 					if fa, ok := st.Addr.(*ssa.FieldAddr); ok && fieldNameOf(fa) == "SignerIsReady" {
@@ -341,8 +341,8 @@ func checkC09(c *km.Ctx) {
 		}
 		// who may call unsealCA
 		for _, cs := range c.G.Callers[unseal] {
-			ok := cs.Caller == inj || cs.Caller.Name() == "tryAwsUnseal"
-			r.Add("R-C09-2", km.FuncName(cs.Caller), "who may call unsealCA", posOf(c, cs.Instr), "only the injection handler and the AWS auto-unseal loop", cs.Caller.Name(), ok)
+			ok := cs.Caller == inj || km.NameOf(cs.Caller) == "tryAwsUnseal"
+			r.Add("R-C09-2", km.FuncName(cs.Caller), "who may call unsealCA", posOf(c, cs.Instr), "only the injection handler and the AWS auto-unseal loop", km.NameOf(cs.Caller), ok)
 		}
 	}
 
@@ -364,7 +364,7 @@ func checkC09(c *km.Ctx) {
 				if !primitiveSigning[sk.name] {
 					continue
 				}
-				key := h.Name() + "|" + posOf(c, sk.in)
+				key := km.NameOf(h) + "|" + posOf(c, sk.in)
 				if seen[key] {
 					continue
 				}
@@ -373,7 +373,7 @@ func checkC09(c *km.Ctx) {
 				req := "sealed gate passed (Signer seen non-nil) before " + sk.name
 				found := "dominated by the sealed gate"
 				if !ok {
-					if reason, tabled := noGateRoutes[h.Name()]; tabled {
+					if reason, tabled := noGateRoutes[km.NameOf(h)]; tabled {
 						// weaker shape: an invoke of Public() on state.Signer dominates the sink in its own function or a caller
 						ok2, why2 := s.HoldsOnPathsWithinInstr(sk.in, func(at ssa.Instruction) bool { return signerMethodDominates(at) }, roots, reach, 6)
 						ok = ok2
@@ -386,7 +386,7 @@ func checkC09(c *km.Ctx) {
 						found = why
 					}
 				}
-				r.Add("R-C09-4", km.FuncName(fn), "route "+h.Name()+" -> "+sk.name, posOf(c, sk.in), req, clipS(found, 500), ok)
+				r.Add("R-C09-4", km.FuncName(fn), "route "+km.NameOf(h)+" -> "+sk.name, posOf(c, sk.in), req, clipS(found, 500), ok)
 			}
 		}
 	}
